@@ -8,11 +8,10 @@ import re
 import shlex
 import subprocess
 
-from sfv.framework import Ctx, Property
+from sfv.framework import Ctx, Inconclusive, Property
 from sfv.rt import cwldiff as C
 from sfv.rt import cwlgen_tool as G
 from sfv.rt.hexs import hx
-from sfv.rt.par import pmap
 from sfv.translate import cwlcmdtpl
 
 PATH_RE = re.compile(r"/[^ ,:=]*/(in_[A-Za-z0-9_]+\.txt|stdin_src\.txt)")
@@ -124,6 +123,8 @@ def corpus_tools(d: str):
        "stdout:file-contains-stderr", collect=("dump.json", "out.txt"))
     mk("scalar-strings", {"inputs": {f"s{i}": {"type": "string", "inputBinding": {"position": i, **({"prefix": "--p=", "separate": False} if i % 3 == 0 else {})}}
                                      for i in range(len(G.STRINGS))}}, {f"s{i}": s for i, s in enumerate(G.STRINGS)}, None)
+    mk("exit-code-success", {"requirements": {"EnvVarRequirement": {"envDef": {"SFVT_EXIT": "3"}}}, "successCodes": [3]}, {}, None)
+    mk("exit-code-failure", {"requirements": {"EnvVarRequirement": {"envDef": {"SFVT_EXIT": "4"}}}, "successCodes": [3]}, {}, None)
     mk("position-ties", {"inputs": {"b": {"type": "string", "inputBinding": {"position": 1}}, "a": {"type": "string", "inputBinding": {"position": 1}},
                                     "c": {"type": "boolean", "inputBinding": {"prefix": "-c"}}},
                          "arguments": ["first", "second", {"valueFrom": "lit", "position": 1}, {"valueFrom": "lit2", "position": 1},
@@ -141,9 +142,8 @@ def compare_tool(ctx: Ctx, desc: dict, res: dict, model_out: str | None, corpus:
     ctx.count(f"outcome:{o1}/{o2}")
     d1 = d2 = None
     what = []
-    if "timeout" in (o1, o2):
-        ctx.fail("hang:" + ("streamflow" if o1 == "timeout" else "cwltool"), f"runner did not finish ({o1}/{o2})", case)
-        return
+    if "timeout" in (o1, o2):   # cannot happen: run_cases_confirmed re-runs such cases alone or ends the check inconclusive
+        raise Inconclusive(f"runner did not finish ({o1}/{o2})")
     if o1 != o2:
         what.append(f"StreamFlow {o1}, cwltool {o2}; sf stderr: {sf['stderr'][-300:]}")
     elif o1 == "success":
@@ -156,6 +156,9 @@ def compare_tool(ctx: Ctx, desc: dict, res: dict, model_out: str | None, corpus:
                 what.append(f"argv: streamflow {norm_argv(d1['argv'])} cwltool {norm_argv(d2['argv'])}")
             if d1["env"] != d2["env"]:
                 what.append(f"env: streamflow {d1['env']} cwltool {d2['env']}")
+            for k in ("home_is_cwd", "tmpdir_ok"):   # HOME = output directory, TMPDIR = an existing directory other than it
+                if d1.get(k) != d2.get(k):
+                    what.append(f"{k}: streamflow {d1.get(k)} cwltool {d2.get(k)}")
             if ("stdin" in desc["features"] or "stdin-compare" in desc["features"]) and d1["stdin"] != d2["stdin"]:
                 what.append(f"stdin: streamflow {d1['stdin']!r} cwltool {d2['stdin']!r}")
         for k in desc["collect"][1:]:
@@ -189,11 +192,12 @@ class C30(Property):
     drivers = ["Drivers/C30.lean"]
     translators = [cwlcmdtpl.generate]
     quick_budget_s = 1500
-    thorough_budget_s = 7200
+    thorough_budget_s = 2400
     min_nontrivial = 20
     rule = ("(i) quoting: random words over an alphabet of shell metacharacters, quotes, whitespace, unicode and the empty string: Lean "
             "shlexQuote vs Python shlex.quote, Lean parseCmd vs shlex.split and vs the original words; (ii) environment: random values through the real "
-            "create_command, its output executed by /bin/sh, vs the Lean rendering model (generated quoting style); (iii) whole-runner differential: random CommandLineTools (1..6 bound "
+            "create_command, its output executed by /bin/sh, vs the Lean rendering model (generated quoting style); (iii) redirections: stdin/stdout/stderr combinations through the real create_command vs the Lean "
+            "suffix model; (iv) whole-runner differential: random CommandLineTools (1..6 bound "
             "inputs of type string/int/float/boolean/File/enum/optional/array/record with position, prefix, separate, itemSeparator, "
             "item bindings, valueFrom; arguments; ShellCommandRequirement with shellQuote:false; EnvVarRequirement; stdin/stdout/stderr) whose "
             "baseCommand dumps argv / SFVT_* environment / stdin as JSON, run by StreamFlow and by cwltool in fresh processes with private "
@@ -218,7 +222,8 @@ class C30(Property):
                  "splitting round trip + differential runs against cwltool")
     level_text = ("grade C (kernel): argv_eq_spec / command_string_eq_spec prove that on the modelled binding fragment StreamFlow builds the same "
                   "elements, order and quoting flags as the standard; quote_roundtrip and argv_verbatim prove that every quoted element reaches "
-                  "the tool verbatim for every string; env_eq_spec proves the same for EnvVarRequirement values (full strength after fix 1a0529c); everything "
+                  "the tool verbatim for every string; env_eq_spec proves the same for EnvVarRequirement values (full strength after fix 1a0529c); "
+                  "redirects_eq_spec_partial for declared stderr with the witness redirects_eq_spec_false (stdout without stderr); everything "
                   "else (floats, JavaScript valueFrom, records, staging, redirections, the real shell) is differential validation against cwltool")
     level_note = ("Lean kernel, axioms within {propext, Classical.choice, Quot.sound}; binding and shell models are hand-written and compared on "
                   "every run with shlex, /bin/sh and with the argv both runners really pass")
@@ -268,9 +273,50 @@ class C30(Property):
                 ctx.fail("env:shell-active-value" if any(c in v for c in '$`\\"') else "env:value-not-verbatim",
                          f"EnvVar value {v!r} reaches the process as {real!r} (command: {cmd[-120:]!r})", {"op": "env", "value": v})
 
+    def _redirections(self, ctx: Ctx) -> None:
+        """the suffix the REAL create_command appends for stdin / stdout / stderr (stderr defaulting to stdout as CWLCommand.execute
+        does — checked by the extractor) against the Lean rendering `renderSuffix (sfSuffix i o e)`; monitor: the effective streams
+        equal the standard's unless the tool has stdout without stderr (known finding)"""
+        import asyncio.subprocess as asp
+
+        from streamflow.core.utils import create_command
+
+        rng = ctx.rng
+        names = [None, "out.txt", "in put.txt", "e'rr", "a$b", "x;y", "é.log", "-", "two  sp"]
+        combos = [(None, None, None), (None, "out.txt", None), ("in.txt", "out.txt", "err.txt"), (None, None, "err.txt")]
+        for _ in range(40 if ctx.tier == "quick" else 400):
+            combos.append((rng.choice(names), rng.choice(names), rng.choice(names)))
+        opt = lambda v: "~" if v is None else hx(v)  # noqa: E731
+        got = ctx.lean("Drivers/C30.lean", [f"redir {opt(i)} {opt(o)} {opt(e)}" for i, o, e in combos])
+        base = create_command("C30", ["CMD"])
+        for (i, o, e), g in zip(combos, got):
+            stdout = o if o is not None else asp.STDOUT
+            stderr = e if e is not None else stdout
+            real = create_command("C30", ["CMD"], stdin=i, stdout=stdout, stderr=stderr)
+            parts = dict(p.split(":", 1) for p in g.split(" "))
+            model = "" if parts["suffix"] == "-" else bytes.fromhex(parts["suffix"]).decode()
+            ctx.case({"op": "redir", "stdin": i, "stdout": o, "stderr": e, "real": real}, ("redir", i, o, e), "redirections")
+            if not real.startswith("CMD") or real[3:] != model:
+                ctx.disagree("redirection rendering model vs create_command", f"stdin={i!r} stdout={o!r} stderr={e!r}: code {real!r}, Lean {('CMD' + model)!r}",
+                             {"op": "redir", "stdin": i, "stdout": o, "stderr": e})
+            # the standard: stderr goes to its own file when declared, else to the runner's stderr
+            want_err = "inherit" if e is None else "file=" + hx(e)
+            streams = parts["streams"].split(",")
+            if e is not None and e == o:
+                continue
+            if len(streams) == 3 and streams[2] != want_err:
+                if o is not None and e is None:
+                    ctx.fail("stdout:file-contains-stderr", f"stdout={o!r} without stderr: create_command renders {real[3:]!r} (stderr merged into the stdout file)",
+                             {"op": "redir", "stdin": i, "stdout": o, "stderr": e})
+                elif o is None and e is None:
+                    ctx.count("stderr-merged-into-captured-output")   # nothing is redirected to a file: the runner logs both streams
+                else:
+                    ctx.fail("redirections", f"stdin={i!r} stdout={o!r} stderr={e!r}: effective streams {parts['streams']}", {"op": "redir", "stdin": i, "stdout": o, "stderr": e})
+
     def explore(self, ctx: Ctx) -> None:
         C.enable_bytecode_cache()
         self._quoting(ctx)
+        self._redirections(ctx)
         C.warm_up()
         rng = ctx.rng
         descs = corpus_tools(os.path.join(ctx.scratch, "corpus"))
@@ -294,19 +340,22 @@ class C30(Property):
                  for k, d in enumerate(descs)]
         ncorpus = sum(1 for d in descs if d["corpus"])
         done = 0
+        budget = self.quick_budget_s if ctx.tier == "quick" else self.thorough_budget_s
         for start in range(0, len(cases), 16):
-            if start >= ncorpus and ctx.time_left() < 240:
-                ctx.notes.append(f"budget: {len(cases) - start} random tools not run")
-                if done < ncorpus + 6:
+            # adaptive plan: no new tools once 70 % of the budget is used (the corpus always runs)
+            if start >= ncorpus and ctx.time_left() < 0.3 * budget:
+                ctx.notes.append(f"adaptive plan: {len(cases) - start} of {len(cases) - ncorpus} random tools not run (70% of the budget used)")
+                if done < ncorpus + 4:
                     ctx.extra["incomplete"] = True
                 break
-            for case, status, res in pmap(C.run_case, cases[start:start + 16], timeout=2400, workers=8):
-                d = descs[case["id"]]
-                done += 1
-                if status != "ok":
-                    ctx.fail("hang:harness", f"{d['name']}: {status}: {str(res)[:300]}", {"op": "tool", "name": d["name"]})
-                    continue
-                compare_tool(ctx, d, res, outs.get(case["id"]), d["corpus"])
+            try:
+                for case, res in C.run_cases_confirmed(cases[start:start + 16], time_left=ctx.time_left):
+                    d = descs[case["id"]]
+                    done += 1
+                    compare_tool(ctx, d, res, outs.get(case["id"]), d["corpus"])
+            except C.Unconfirmed as e:
+                raise Inconclusive(str(e)) from e
+        ctx.extra["tools_planned"] = len(cases)
         ctx.extra["tools_run"] = done
 
     def replay(self, ctx: Ctx, data) -> None:
